@@ -107,6 +107,26 @@ def opFn (j : Json) : Except String Json := do
     let a1 ← argStr j 1
     let a2 ← argListStr j 2
     return Json.mkObj [("r", jstr (Pinned.Funcs.metadata_doc a0 a1 a2))]
+  if name == "import_str" then
+    let a0 ← argStr j 0
+    let a1 ← argStr j 1
+    let a2 ← argListStr j 2
+    return Json.mkObj [("r", jstr (Pinned.Funcs.import_str a0 a1 a2))]
+  if name == "service_shortname" then
+    let a0 ← argStr j 0
+    return Json.mkObj [("r", jstr (Pinned.Funcs.service_shortname a0))]
+  if name == "naming_long_name" then
+    let a0 ← argListStr j 0
+    let a1 ← argStr j 1
+    return Json.mkObj [("r", jstr (Pinned.Funcs.naming_long_name a0 a1))]
+  if name == "naming_module_namespace" then
+    let a0 ← argListStr j 0
+    return Json.mkObj [("r", (fun xs => jarr (xs.map jstr)) (Pinned.Funcs.naming_module_namespace a0))]
+  if name == "naming_warehouse_package_name" then
+    let a0 ← argStr j 0
+    let a1 ← argListStr j 1
+    let a2 ← argStr j 2
+    return Json.mkObj [("r", jstr (Pinned.Funcs.naming_warehouse_package_name a0 a1 a2))]
   if name == "address_str" then
     let a0 ← argStr j 0
     let a1 ← argListStr j 1
